@@ -524,6 +524,14 @@ Proof.
   repeat match goal with E : _ = _ |- _ => first [rewrite E | idtac]; clear E end. exact Hp.
 Qed.
 
+(* only the queue: what is left of the invariant when the transaction ends *)
+Definition Q0 (n : Z) (s : src) : Prop := Forall (fd_within n) (s_queue s).
+Lemma vdet_Q0 : forall n, vdet (Q0 n).
+Proof.
+  intros n s s' Hv Hp. unfold view in Hv. injection Hv; clear Hv; intros. unfold Q0 in *.
+  repeat match goal with E : _ = _ |- _ => first [rewrite E | idtac]; clear E end. exact Hp.
+Qed.
+
 Lemma p1_sadd : forall n p, fd_within n p -> pres (P1 n) (P1 n) (sadd_packet p).
 Proof.
   intros n p Hp s H. unfold sadd_packet, modify. cbn [fst]. destruct s. unfold P1, P0 in *. cbn in *.
@@ -534,7 +542,7 @@ Qed.
 Ltac pp_step :=
   cbv beta zeta;
   match goal with
-  | |- pres ?P ?P _ => solve [apply pres_fr; [first [apply vdet_P0 | apply vdet_P1] | minv]]
+  | |- pres ?P ?P _ => solve [apply pres_fr; [first [apply vdet_P0 | apply vdet_P1 | apply vdet_Q0] | minv]]
   | |- pres ?P ?P (bind _ _) => apply (pres_bind P P P); [ | intros ? Hq; exact Hq | intro]
   | |- pres _ _ (when ?b _) => destruct b; [rewrite when_true | rewrite when_false]
   | |- pres _ _ (sadd_packet _) => apply p1_sadd; exact I
@@ -560,8 +568,15 @@ Proof.
     unfold P1, P0, cancelled_inv, cancelling, cancel_step in *. cbn in *.
     destruct H3 as [(E1 & E2 & E3 & HF) HC]. split; [exact HF|]. right.
     repeat split; try assumption. left. late.
-  - unfold sreset_internal, modify, okpost. destruct s1. unfold P1, P0, cancelled_inv in *. cbn in *.
-    split; [tauto | left; reflexivity].
+  - (* unacknowledged mode: the Transaction-Finished indication, then the reset *)
+    assert (HQ : Q0 n s1) by (unfold Q0, P1, P0 in *; tauto).
+    rewrite b_gq. destruct (q_cond_eof (s_p s1)) as [c|]; [|exact I].
+    apply (ok_bind (Q0 n) (Q0 n)); [pp | exact HQ | intros _ s2 H2].
+    unfold notice_of_completion_s.
+    apply (ok_bind (Q0 n) (Q0 n)); [pp | exact H2 | intros l s3 H3].
+    apply (ok_bind (Q0 n) (Q0 n)); [pp | exact H3 | intros _ s4 H4].
+    unfold sreset_internal, modify, okpost. destruct s4. unfold Q0, cancelled_inv in *. cbn in *.
+    split; [exact H4 | left; reflexivity].
 Qed.
 
 Lemma ok_cancel_branch : forall n cond s, cond <> C_NO_ERROR -> P0 n s ->
